@@ -77,6 +77,7 @@ def run(ctx) -> None:
     r3_reset_complete(ctx)
     r4_class_attr_writes(ctx)
     r5_ownership(ctx)
+    r9_operators_and_memos(ctx)
     r6_singletons(ctx)
     r7_mutable_defaults(ctx)
     r8_fresh_state(ctx)
@@ -460,6 +461,71 @@ def _restore_uses_saved(prog, fi: FuncInfo, t: ast.Try, restore: ast.stmt, attr:
 
 
 # ------------------------------------------------------------------------------------------ R5
+def r9_operators_and_memos(ctx) -> None:
+    """Operand mutation by '+' (shared with C14.R5; the _clear_pipeline calls are C15.R5) and memo discipline."""
+    from . import c14
+    r, prog = ctx.r, ctx.prog
+    c14.r5_operands_not_consumed(ctx, "C15.R9", skip_clear=True)
+    r.rule("C15.R10", "memo discipline: a function that answers from a '*cache*' attribute stores and returns the same value under the same key — what a later call gets from the cache is what the first call returned")
+    n_memo = 0
+    for q, f in sorted(prog.funcs.items()):
+        if not f.module.name.startswith("sigma.") or f.module.name.startswith(("sigma.data", "sigma.validators", "sigma.plugins", "sigma.cli")):
+            continue
+
+        def cache_base(e: ast.AST) -> Optional[str]:
+            """'X' if e denotes a cache attribute (…​.<name with 'cache'>) or a local alias of one."""
+            if isinstance(e, ast.Attribute) and "cache" in e.attr.lower():
+                return unparse(e)
+            if isinstance(e, ast.Name):
+                vals = [v for v in assignments_to(f.node, e.id) if isinstance(v, ast.Attribute) and "cache" in v.attr.lower()]
+                if vals and len(vals) == len(assignments_to(f.node, e.id)):
+                    return unparse(vals[0])
+            return None
+
+        reads: list[tuple[ast.Return, Optional[str]]] = []
+        stores: list[tuple[ast.Assign, Optional[str], list[str]]] = []
+        for n in walk_no_nested(f.node):
+            if isinstance(n, ast.Return) and n.value is not None:
+                v = n.value
+                if cache_base(v):
+                    reads.append((n, None))
+                elif isinstance(v, ast.Subscript) and cache_base(v.value):
+                    reads.append((n, unparse(v.slice)))
+            elif isinstance(n, ast.Assign):
+                names = [t.id for t in n.targets if isinstance(t, ast.Name)]
+                for t in n.targets:
+                    if cache_base(t) and not isinstance(t, ast.Name):
+                        stores.append((n, None, names))
+                    elif isinstance(t, ast.Subscript) and cache_base(t.value):
+                        stores.append((n, unparse(t.slice), names))
+        if not stores or not reads:
+            continue
+        n_memo += 1
+        loc = f.loc
+        rkeys = {k for _, k in reads if k is not None}
+        skeys = {k for _, k, _n in stores if k is not None}
+        if rkeys != skeys:
+            r.violation("C15.R10", q, f"cache read under key {sorted(rkeys)} but filled under {sorted(skeys)}", "the cache is looked up with another key than it is filled with (e.g. any base class along the MRO): an entry made for one input answers for a different one, so the result depends on what was processed before", loc)
+            continue
+        bad = False
+        for st, key, names in stores:
+            stored = st.value
+            for ret in (x for x in walk_no_nested(f.node) if isinstance(x, ast.Return) and x.value is not None and x.lineno > st.lineno):
+                rv = ret.value
+                same = (cache_base(rv) is not None) or (isinstance(rv, ast.Subscript) and cache_base(rv.value) is not None)
+                if not same and isinstance(rv, ast.Name):
+                    src_names = set(names) | ({stored.id} if isinstance(stored, ast.Name) else set())
+                    reassigned = any(isinstance(a, ast.Assign) and any(isinstance(t, ast.Name) and t.id == rv.id for t in a.targets) and a.lineno > st.lineno and a.lineno < ret.lineno for a in walk_no_nested(f.node))
+                    same = rv.id in src_names and not reassigned
+                if not same:
+                    bad = True
+                    r.violation("C15.R10", q, f"{stmt_head(st, 70)} … {stmt_head(ret, 50)}", "the value returned on the miss path is not the value that was stored in the cache (it is changed after the store): the first call and every later call return different results for the same input", f"{f.module.relpath}:{st.lineno}")
+        if not bad:
+            r.ok("C15.R10", q, f"memo: {len(stores)} store(s), {len(reads)} cached return(s), same key, stored value = returned value", loc)
+    if n_memo < 2:
+        raise AnalysisError(f"only {n_memo} memo functions found (2 confirmed: SigmaModifier._get_modify_type_hint, ExternalSourceBaseTransformation._get_values)")
+
+
 def r5_ownership(ctx) -> None:
     r, prog = ctx.r, ctx.prog
     r.rule("C15.R5", "a processing item/transformation/condition has a single owning pipeline: set_pipeline refuses a second owner; owners are cleared only by _clear_pipeline, which is called only from the '+' operator (reported as operand-consuming)")
